@@ -184,6 +184,23 @@ class HoistSetupCallsIntoConditionals(RewritePattern):
         old_in_state = op.in_state
         assert isinstance(old_in_state, OpResult)
 
+        # Step 0: all values the setup uses must be available inside the scf.if branches,
+        # so they can't be computed between the scf.if and the setup op.
+        if_op = op.in_state.owner
+        if op.parent_block() is not if_op.parent_block():
+            return
+        for val in op.values:
+            if isinstance(val, OpResult) and val_is_defined_in_block(val, if_op.parent_block()):
+                # find the op in the same block as the scf.if that (transitively) contains the definition
+                def_op = val.owner
+                while def_op.parent_block() is not if_op.parent_block():
+                    def_op = def_op.parent_op()
+                    assert def_op is not None
+                block = if_op.parent_block()
+                assert block is not None
+                if block.get_operation_index(def_op) >= block.get_operation_index(if_op):
+                    return
+
         # Step 1: Check that it's legal to move:
         # grab all launch op uses of the SSA value produced by the scf.if
         # this will only find things that happen *after* the scf.if, so nothing
